@@ -93,7 +93,7 @@ def main():
             level_note=BASE_NOTE + c.get('note', ''), technique=c['technique']))
     na = [dict(property_id=p['id'], reason=NOT_YET.get(p['id'], 'check not built yet in this round (planned: see DESIGN.md §7); not claimed until its machinery runs'))
           for p in props if p['id'] not in CHECKS]
-    m = dict(version=1, setup_cmd='cd lean && lake build',
+    m = dict(version=1, setup_cmd='cd lean && lake build NdeVerif.Static && (lake build || echo "a regenerated module did not build from its committed copy; the checks regenerate and rebuild it")',
              hooks=dict(guard='NEURODIFFEQ_VERIF', enable='no source hooks: checks reach the code through public APIs, subclassing and harness-side wrapping; ./check exports NEURODIFFEQ_VERIF=1',
                         baseline_off_cmd='cd /repo && /venv/bin/python -m pytest -ra -q -p no:cacheprovider --timeout=900 --continue-on-collection-errors',
                         source_commits=[], add_only=True),
